@@ -382,3 +382,83 @@ func ruleC09StateOnce(p *Prog, a *Anchors, r *Report) {
 		r.Trivial("none", "-", "no node installs a freshly allocated state object")
 	}
 }
+
+// R-C09-MAPREV: "`for` renders its body once per element in order (reversed, sorted, and key/value over maps as
+// requested)". The keys of a map are always visited in sorted order, so `reversed` has a meaning for a map as well:
+// the reverse of what the loop without it renders. In the map arm of the iteration the direction is decided by the
+// reverse flag alone — not only together with `sorted`.
+func ruleC09MapReversed(p *Prog, a *Anchors, r *Report) {
+	r.Begin("R-C09-MAPREV", "where the iteration sorts the keys of a map, the descending sort is taken exactly when the `reversed` flag is set (not only together with `sorted`), the ascending one exactly when it is not", 1)
+	it := p.Method("Value", "IterateOrder")
+	if it == nil {
+		r.Unk("anchor", "-", "anchor unresolved: (*Value).IterateOrder")
+		return
+	}
+	var bools []*ssa.Parameter
+	for _, pa := range it.Params {
+		if bt, ok := pa.Type().Underlying().(*types.Basic); ok && bt.Kind() == types.Bool {
+			bools = append(bools, pa)
+		}
+	}
+	if len(bools) != 2 {
+		r.Unk("flags", p.Pos(it.Pos()), "expected two boolean flags (reverse, sorted), found %d", len(bools))
+		return
+	}
+	reverse, sorted := bools[0], bools[1]
+	isFlag := func(pa *ssa.Parameter, want bool) func(ssa.Value, bool) bool {
+		return func(c ssa.Value, pol bool) bool { return unspillParam(c) == ssa.Value(pa) && pol == want }
+	}
+	n := 0
+	for _, b := range it.Blocks {
+		for _, in := range b.Instrs {
+			c, ok := in.(*ssa.Call)
+			if !ok || c.Common().StaticCallee() == nil || p.extName(c.Common().StaticCallee()) != "sort.Sort" {
+				continue
+			}
+			// only the sorts of map keys (the argument is built from MapKeys)
+			arg := c.Common().Args[0]
+			desc := false
+			if mi, isMI := arg.(*ssa.MakeInterface); isMI {
+				arg = mi.X
+			}
+			if rc, isCall := arg.(*ssa.Call); isCall && rc.Common().StaticCallee() != nil && p.extName(rc.Common().StaticCallee()) == "sort.Reverse" {
+				desc = true
+				arg = rc.Common().Args[0]
+				if mi, isMI := arg.(*ssa.MakeInterface); isMI {
+					arg = mi.X
+				}
+			}
+			fromKeys := false
+			if cv, isCV := arg.(*ssa.ChangeType); isCV {
+				if kc, isCall := cv.X.(*ssa.Call); isCall && kc.Common().StaticCallee() != nil && p.extName(kc.Common().StaticCallee()) == "(reflect.Value).MapKeys" {
+					fromKeys = true
+				}
+			}
+			if !fromKeys {
+				continue
+			}
+			n++
+			if desc {
+				key := "map:descending"
+				switch {
+				case !Guarded(in, isFlag(reverse, true)):
+					r.Bad(key, p.InstrPos(in), "the keys of a map are sorted in descending order without the `reversed` flag being set")
+				case Guarded(in, isFlag(sorted, true)):
+					r.Bad(key, p.InstrPos(in), "the keys of a map are visited in reverse only when `sorted` is given as well: {%% for k, v in m reversed %%} renders the same as without `reversed`, although the keys of a map are always visited in sorted order")
+				default:
+					r.OK(key, p.InstrPos(in), "descending exactly under the `reversed` flag")
+				}
+			} else {
+				key := "map:ascending"
+				if Guarded(in, isFlag(reverse, false)) {
+					r.OK(key, p.InstrPos(in), "ascending only when `reversed` is not set")
+				} else {
+					r.Bad(key, p.InstrPos(in), "the keys of a map are sorted in ascending order also when `reversed` is set")
+				}
+			}
+		}
+	}
+	if n == 0 {
+		r.Unk("map-arm", p.Pos(it.Pos()), "no sort of map keys found in the iteration")
+	}
+}
